@@ -823,6 +823,30 @@ Definition expert_swap_children_except_in_kind (n child1 : nid) (ci1 : Z) (child
   | _, _ => panic (PIndex 435)
   end.
 
+(* ExpertNode::swap_children (kind/expert.rs:141): the two index cells and the two vector entries *)
+Definition ex_swap_children (x : nat) (one two : Z) : M unit :=
+  ex <- get_expert x ;;
+  match zget (ex_children ex) one, zget (ex_children ex) two with
+  | Some a, Some b =>
+      ea <- get_edge a ;;
+      eb <- get_edge b ;;
+      upd_edge a (fun d => d <| ed_index := ed_index eb |>) ;;;
+      upd_edge b (fun d => d <| ed_index := ed_index ea |>) ;;;
+      upd_expert x (fun ex => ex <| ex_children := zset (zset (ex_children ex) one b) two a |>)
+  | _, _ => panic (PIndex 423)
+  end.
+
+(* ExpertNode::pop_child_edge (kind/expert.rs:158) *)
+Definition ex_pop_child_edge (x : nat) : M (option nat) :=
+  ex <- get_expert x ;;
+  match stdpp.list.last (ex_children ex) with
+  | None => ret None
+  | Some popped =>
+      upd_expert x (fun ex => ex <| ex_children := removelast (ex_children ex) |> <| ex_force_stale := true |>) ;;;
+      upd_edge popped (fun d => d <| ed_index := None |>) ;;;
+      ret (Some popped)
+  end.
+
 (* Node::remove_dependency + expert_remove_dependency (node.rs:1215) *)
 Definition expert_remove_dependency (fuel : nat) (n : nid) (eid : nat) : M unit :=
   ed <- get_edge eid ;;
@@ -847,14 +871,7 @@ Definition expert_remove_dependency (fuel : nat) (n : nid) (eid : nat) : M unit 
              (if is_necessary x
               then expert_swap_children_except_in_kind n (ed_child ed) edge_index (ed_child led) last_index
               else ret tt) ;;;
-             (* ExpertNode::swap_children (kind/expert.rs:141) *)
-             (match zget (ex_children ex) edge_index, zget (ex_children ex) last_index with
-              | Some a, Some b =>
-                  upd_edge a (fun d => d <| ed_index := Some last_index |>) ;;;
-                  upd_edge b (fun d => d <| ed_index := Some edge_index |>) ;;;
-                  upd_expert e (fun ex => ex <| ex_children := zset (zset (ex_children ex) edge_index b) last_index a |>)
-              | _, _ => panic (PIndex 423)
-              end)) ;;;
+             ex_swap_children e edge_index last_index) ;;;
           upd_expert e (fun ex => ex <| ex_force_stale := true |>) ;;;
           dassert (x <- get_node n ;; s <- get ;; ret (is_stale s x)) 424 ;;;
           x <- get_node n ;;
@@ -868,14 +885,10 @@ Definition expert_remove_dependency (fuel : nat) (n : nid) (eid : nat) : M unit 
              (* decr_invalid_children (kind/expert.rs:118) *)
              if n_valid c then ret tt else upd_expert e (fun ex => ex <| ex_num_invalid := ex_num_invalid ex - 1 |>)
            else ret tt) ;;;
-          (* pop_child_edge (kind/expert.rs:158) *)
-          ex <- get_expert e ;;
-          match stdpp.list.last (ex_children ex) with
+          popped <- ex_pop_child_edge e ;;
+          match popped with
           | None => panic (PUnwrapNone 425)
-          | Some popped =>
-            upd_expert e (fun ex => ex <| ex_children := removelast (ex_children ex) |> <| ex_force_stale := true |>) ;;;
-            upd_edge popped (fun d => d <| ed_index := None |>) ;;;
-            dassert (ret (bool_decide (popped = eid))) 426
+          | Some popped => dassert (ret (bool_decide (popped = eid))) 426
           end
         end
       end
